@@ -248,7 +248,8 @@ func advCallsSetup(s *rt.Sim, tier string) func() {
 		case 0:
 			calls = append(calls,
 				apiCall{"blockfetch.GetBlock", "blockfetch", specBlockFetch, blockfetch.ProtocolId, func(c *ouroboros.Connection) error {
-					_, e := c.BlockFetch().Client.GetBlock(samplePoint(3))
+					// the point of the block the responder serves (samples.go): a right reply succeeds
+					_, e := c.BlockFetch().Client.GetBlock(fixBlocks()[1].Point)
 					return e
 				}},
 				apiCall{"blockfetch.GetBlockRange", "blockfetch", specBlockFetch, blockfetch.ProtocolId, func(c *ouroboros.Connection) error {
@@ -404,6 +405,23 @@ func advCallsSetup(s *rt.Sim, tier string) func() {
 		if !watch.closed {
 			rt.Violate("C15/errorchan-open/"+call.name, "%s: the connection's ErrorChan is still open", desc)
 			return
+		}
+		// a call made after the connection has ended returns as well
+		if chance("op", 1, 2) {
+			late := &callRec{}
+			go func() {
+				late.err = call.run(conn)
+				late.returned = true
+				rt.Log("late call %s returned: %v", call.name, late.err)
+			}()
+			for i := 0; i < 720 && !late.returned; i++ {
+				sleep(10 * time.Second)
+			}
+			rt.Hit("advcalls.late-call")
+			if !late.returned {
+				rt.Violate(fmt.Sprintf("C15/late-call-hangs/%s/%s", call.name, resp.behaviour), "%s: the same call made after the connection had ended and Close had returned did not return within 2 simulated hours", desc)
+				return
+			}
 		}
 		if live := libTasksAlive(); len(live) > 0 {
 			site := live[0].Name
